@@ -178,3 +178,9 @@ func fatalf(code int, format string, a ...interface{}) {
 	fmt.Fprintf(os.Stderr, format+"\n", a...)
 	os.Exit(code)
 }
+
+// Confirmer lets a check lower the number of isolated re-runs (out of n) that must reproduce a signature. The
+// default is n of n; a check may accept fewer only for observations that are sound on one occurrence.
+type Confirmer interface {
+	MinConfirmations(sig string, n int) int
+}
